@@ -197,6 +197,24 @@ class _ExprNF(ast.NodeTransformer):
                 return self.visit(self._neg(o))
             if isinstance(o, ast.UnaryOp) and isinstance(o.op, ast.Not) and isinstance(o.operand, (ast.Compare, ast.BoolOp)):
                 return o.operand
+            if isinstance(o, ast.UnaryOp) and isinstance(o.op, ast.Not) and getattr(self, "_bool_ctx", False):
+                return o.operand
+        return n
+
+    @staticmethod
+    def _strip_double_not(t):
+        while isinstance(t, ast.UnaryOp) and isinstance(t.op, ast.Not) and isinstance(t.operand, ast.UnaryOp) and isinstance(t.operand.op, ast.Not):
+            t = t.operand.operand
+        return t
+
+    def visit_If(self, n):
+        self.generic_visit(n)
+        n.test = self._strip_double_not(n.test)   # `if not not x:` tests the truth of x, like `if x:`
+        return n
+
+    def visit_While(self, n):
+        self.generic_visit(n)
+        n.test = self._strip_double_not(n.test)
         return n
 
     def visit_Compare(self, n):
@@ -254,13 +272,13 @@ def _split_tuple_assigns(fn):
             out = []
             for s in b:
                 if isinstance(s, ast.Assign) and len(s.targets) == 1 and isinstance(s.targets[0], ast.Tuple) and isinstance(s.value, ast.Tuple) \
-                        and len(s.targets[0].elts) == len(s.value.elts) and all(isinstance(t, ast.Name) for t in s.targets[0].elts) \
+                        and len(s.targets[0].elts) == len(s.value.elts) and all(isinstance(t, (ast.Name, ast.Attribute)) for t in s.targets[0].elts) \
                         and not any(isinstance(v, ast.Starred) for v in s.value.elts):
-                    names = [t.id for t in s.targets[0].elts]
+                    names = [ast.unparse(t) for t in s.targets[0].elts]
                     ok = True
                     for i, v in enumerate(s.value.elts):
-                        used = {x.id for x in ast.walk(v) if isinstance(x, ast.Name)}
-                        if used & set(names[:i]):
+                        used = {ast.unparse(x) for x in ast.walk(v) if isinstance(x, (ast.Name, ast.Attribute))}
+                        if used & set(names[:i]) or (i > 0 and any(isinstance(x, ast.Call) for x in ast.walk(v)) and any(isinstance(t, ast.Attribute) for t in s.targets[0].elts[:i])):
                             ok = False
                     if ok:
                         for t, v in zip(s.targets[0].elts, s.value.elts):
